@@ -1,6 +1,7 @@
 import Witverif.Proofs.AbiSig
 import Witverif.Proofs.AbiCall
 import Witverif.Proofs.AbiCall2
+import Witverif.Proofs.AbiCall3
 /-!
 # C02 — Call glue follows the canonical calling convention for every signature
 
@@ -178,6 +179,27 @@ result values: direct on task.return, a return area for the sync ABI). -/
 example :
     (flattenOpt (some (Ty.tuple [.u32, .f64, .u8]))).length ≤ 16 ∧
     ∃ ss, call (fun _ => false) .guestExportAsync false true (Func.mk false [.u8] (some (.tuple [.u32, .f64, .u8]))) = .ok ss :=
+  ⟨by decide, ⟨_, rfl⟩⟩
+
+/-- **Import glue, parameters through a correctly laid-out record** (more than 16 flat parameters of
+ANY types; no result).  For any machine state and record area: the glue writes the argument tuple
+into the record exactly as the canonical ABI's `store` does at the canonical field offsets — the same
+allocations in the same order (equal heaps) and a read-equivalent memory —, then performs **exactly
+one** core call whose only operand is the record pointer, and returns; nothing is freed or dropped. -/
+theorem import_glue_indirect_params_correct (p : Nat) (hp : p = 4 ∨ p = 8) (canon : Ty → Bool) (f : Func)
+    (hres : f.result = none) (vals : List Val) (recAddr : Nat) (s0 : MSt)
+    (ht : Spec.hasTys f.params vals = true) (hind : (flattenList f.params).length > 16)
+    (ss : List Stmt) (h : call canon .guestImport true false f = .ok ss) :
+    ∃ env' s', execStmts { p, args := vals.map MV.v, rps := [recAddr] } s0 ss = some (env', s') ∧
+      s'.calls = ("Return", []) :: ("CallWasm", [MV.c ⟨ptrFT p, recAddr⟩]) :: s0.calls ∧
+      s'.freed = s0.freed ∧ s'.dropped = s0.dropped ∧
+      StEq s'.st (Spec.storeFields p f.params vals recAddr 0 s0.st) :=
+  call_import_indirect_correct p hp canon f hres vals recAddr s0 ht hind ss h
+
+/-- Non-vacuity of `import_glue_indirect_params_correct`: 17 string parameters. -/
+example :
+    (flattenList (List.replicate 17 Ty.string)).length > 16 ∧
+    ∃ ss, call (fun _ => false) .guestImport true false (Func.mk false (List.replicate 17 .string) none) = .ok ss :=
   ⟨by decide, ⟨_, rfl⟩⟩
 
 /-- Non-vacuity of `export_glue_indirect_params_correct`: `f(a: string, b0..b15: u64, c: u8) -> u32`
